@@ -178,6 +178,33 @@ def test_latin1_case():
     return n
 
 
+def test_b64():
+    n = 0
+    alpha = b"AZaz09+/="
+    cases = [bytes(t) for k in range(0, 6) for t in itertools.product(alpha, repeat=k)]
+    rnd = random.Random(5)
+    full = b"ABCDEFGHIJKLMNOPQRSTUVWXYZabcdefghijklmnopqrstuvwxyz0123456789+/"
+    for _ in range(3000):
+        k = rnd.randint(0, 12)
+        cases.append(bytes(rnd.choice(full) for _ in range(k)) + b"=" * rnd.randint(0, 2))
+    cases += [b"AB!C", b"A=BC", b"AB==CD", b"=AAA"]
+    for s_ in cases:
+        try:
+            want = binascii.a2b_base64(s_)
+        except binascii.Error:
+            want = "ERR"
+        try:
+            got = M.b64_fast_pts(list(s_))
+            got = None if got is None else bytes(got)
+        except binascii.Error:
+            got = "ERR"
+        if got is None:
+            continue  # not fast-path shape: the model defers to CPython
+        expect(got == want, f"a2b_base64 {s_!r}: {got!r} vs {want!r}")
+        n += 1
+    return n
+
+
 def test_xor():
     import z3
 
@@ -326,6 +353,7 @@ def run(full=False, quiet=False):
         ("unquote", test_unquote_more),
         ("int", test_int),
         ("utf16", test_utf16),
+        ("b64", test_b64),
         ("xor", test_xor),
         ("latin1_case", test_latin1_case),
         ("matcher", lambda: test_matcher(full)),
